@@ -152,7 +152,10 @@ def run(rep, tier):
                  + ["kind:" + k for k in set(kinds)] + ["real:" + v.note.split(" ")[0].split(":")[0] for v in c["vals"] if v.kind == "real"])
 
     n = 4000 if tier == "quick" else 100000
-    core.run_hypothesis(rep, gen.case_strategy(build_case, 2048), body, n, describe=describe)
+    if core.run_hypothesis(rep, gen.case_strategy(build_case, 2048), body, n, describe=describe):
+        return
+    from checks import rsutil
+    rsutil.run_rs_part(rep, tier, "C02")
 
 
 def replay(rep, case, body=None):
